@@ -81,9 +81,18 @@ WinnersBySorting(S) == WinnersBySortingOf(Candidates(S))
 MarshalOrderOf(cs, w) == SortSeq(SetToSeq(w), LAMBDA x, y : SeqLessStr(cs[x].path, cs[y].path))
 MarshalOrder(S) == MarshalOrderOf(Candidates(S), Winners(S))
 
-\* names are sequences of ASCII code points; folding drops '_' and '-' and upper-cases letters
+\* names are sequences of code points; folding drops '_' and '-' and maps every letter to the
+\* smallest code point of its set under Unicode simple case folding: ASCII letters to upper case,
+\* and - for the cased non-ASCII letters the universes use - the sets listed here
+\* (K k KELVIN SIGN; S s LONG S; E-acute; the three sigmas; DZ-caron in three cases; Roman eight;
+\* circled A; micro and mu; A-ring and ANGSTROM SIGN; sharp s)
+FoldSets == {{75, 107, 8490}, {83, 115, 383}, {201, 233}, {931, 962, 963}, {452, 453, 454}, {8551, 8567},
+             {9398, 9424}, {181, 924, 956}, {197, 229, 8491}, {223, 7838}}
+FoldCp(c) == IF \E s \in FoldSets : c \in s
+             THEN LET s == CHOOSE x \in FoldSets : c \in x IN CHOOSE m \in s : \A y \in s : m <= y
+             ELSE IF c \in 97..122 THEN c - 32 ELSE c
 Fold(name) == LET keep == SelectSeq(name, LAMBDA c : c # 95 /\ c # 45) IN
-              [i \in 1..Len(keep) |-> IF keep[i] \in 97..122 THEN keep[i] - 32 ELSE keep[i]]
+              [i \in 1..Len(keep) |-> FoldCp(keep[i])]
 
 \* result of looking up a member name: <<"field", id>> | <<"unknown">> | <<"ambiguous">>
 LookupIn(cs, w, name, insensitive) ==
